@@ -477,6 +477,18 @@ func runB(c *Case, r *mon.Rec, rng *rand.Rand, frames [][]byte, ref [][]byte, h 
 		return
 	}
 	defer cli.Close()
+	if c.Seed%3 == 0 {
+		// a bystander connection that has sent the beginning of a request and then nothing: what one connection has
+		// buffered is no business of another
+		if by, _, berr := l.Dial(2 * time.Second); berr == nil {
+			defer by.Close()
+			part := frames[0][:1+rng.Intn(len(frames[0])-1)]
+			_ = by.SetWriteDeadline(time.Now().Add(2 * time.Second))
+			_, _ = by.Write(part)
+			r.Cover("layer", "B-bystander-with-partial-frame")
+		}
+	}
+	longPause := lock && c.Seed%8 == 5 // a peer that stops for 650 ms in the middle of its first request
 	a := mon.Attrs{"layer": "B", "slow_handler": slow}
 	var got []byte
 	var want []byte
@@ -491,7 +503,14 @@ func runB(c *Case, r *mon.Rec, rng *rand.Rand, frames [][]byte, ref [][]byte, h 
 					cuts = append(cuts, p)
 				}
 			}
-			for _, seg := range srvx.Split(f, cuts) {
+			if longPause && j == 0 && len(cuts) == 0 && len(f) > 9 {
+				cuts = []int{8 + rng.Intn(len(f)-8)}
+			}
+			for si, seg := range srvx.Split(f, cuts) {
+				if longPause && j == 0 && si == 1 {
+					time.Sleep(650 * time.Millisecond)
+					r.Cover("layer", "B-650ms-pause-inside-request")
+				}
 				_ = cli.SetWriteDeadline(time.Now().Add(2 * time.Second))
 				if _, err := cli.Write(seg); err != nil {
 					r.Violate(c, "server-closed-connection", a, fmt.Sprintf("request %d fc%d cut %v: write failed: %v", j, c.FCs[j], cuts, err))
